@@ -6,6 +6,8 @@ Reads, on every run, from /repo's working tree:
                         Display for Word and Operator, Operator::is_word
   src/lang/parse.rs     Expression::unary_op_precedence / binary_op_precedence
   src/mach/function.rs  Function::opcode_and_arity (name -> arity range)
+  src/lang/error.rs     enum ErrorCode (variant -> number)
+  src/lang/mod.rs, src/mach/mod.rs, src/mach/stack.rs   the largest line number, MAX_LINE_LEN, Stack::max_len and is_full's head-room
 and writes coq/Gen/SourceTables.v: the same tables as Gallina list literals over the model's constructors.
 coq/Proofs/SourceTables.v proves, by computation, that the model's hand-written tables ARE these lists; when the source
 changes a table, that file stops compiling (a proof obligation that no longer checks) and the differential run looks for
@@ -142,7 +144,34 @@ def translate():
     if len(fns) < 30 or oa.count("=> Some(") != len(fns):
         raise Shape("opcode_and_arity: %d arms read, %d present" % (len(fns), oa.count("=> Some(")))
     out.append("Definition src_arity : list (string * (N * N)) :=\n  [" + ";\n   ".join("(%s, (%s, %s))" % (coq_str(n), lo, hi) for n, lo, hi in fns) + "]%N.")
-    head = ("(* GENERATED on every run by tools/tables.py from /repo/src/lang/token.rs, src/lang/parse.rs and src/mach/function.rs.\n"
+    # 7. error codes
+    error_rs = open(os.path.join(REPO, "src/lang/error.rs")).read()
+    ec = body_of(error_rs, "pub enum ErrorCode")
+    codes = re.findall(r"(\w+)\s*=\s*(\d+)\s*,", ec)
+    if len(codes) < 20 or ec.count("=") != len(codes):
+        raise Shape("ErrorCode: %d variants read, %d present" % (len(codes), ec.count("=")))
+    out.append("\n".join("Definition src_E_%s : N := %s%%N." % (n, v) for n, v in codes))
+    # 8. limits: the largest line number, the longest line, the pool size, the head-room of Stack::is_full
+    mod_rs = open(os.path.join(REPO, "src/lang/mod.rs")).read()
+    m = re.search(r"impl MaxValue<u16> for LineNumber\s*\{\s*fn max_value\(\) -> u16\s*\{\s*(\d+)\s*\}", mod_rs)
+    if not m:
+        raise Shape("LineNumber::max_value not found")
+    out.append("Definition src_max_line_number : N := %s%%N." % m.group(1))
+    mach_rs = open(os.path.join(REPO, "src/mach/mod.rs")).read()
+    m = re.search(r"const MAX_LINE_LEN: usize = (\d+);", mach_rs)
+    if not m:
+        raise Shape("MAX_LINE_LEN not found")
+    out.append("Definition src_max_line_len : N := %s%%N." % m.group(1))
+    stack_rs = open(os.path.join(REPO, "src/mach/stack.rs")).read()
+    ml = body_of(stack_rs, "fn max_len")
+    if ml.strip() != "u16::max_value() as usize":
+        raise Shape("Stack::max_len is no longer u16::max_value(): %r" % ml.strip())
+    out.append("Definition src_max_pool : N := 65535%N.   (* Stack::max_len = u16::max_value() *)")
+    m = re.fullmatch(r"\s*self\.vec\.len\(\) > self\.max_len\(\) - (\d+)\s*", body_of(stack_rs, "pub fn is_full"))
+    if not m:
+        raise Shape("Stack::is_full has another shape")
+    out.append("Definition src_full_headroom : N := %s%%N." % m.group(1))
+    head = ("(* GENERATED on every run by tools/tables.py from /repo/src/lang/{token,parse,error,mod}.rs and src/mach/{function,mod,stack}.rs.\n"
             "   Do not edit: Proofs/SourceTables.v proves that the model's tables are these. *)\n"
             "From Coq Require Import String NArith List.\nImport ListNotations.\nFrom BL Require Import Base.Prelude Lang.Token.\n"
             "Local Open Scope string_scope.\n\n")
